@@ -9,7 +9,7 @@ func init() {
 		Technique: "decision-table extraction of the DBTracer event handlers compared with a reference recording automaton",
 		Explanation: "Decides on tracing/dbtracer.go, for every combination of (task known, tracing on, marked for recording): StartTask creates or updates the entry with all six fields from the event and marks it for recording exactly when tracing is on — also when the entry pre-exists from a tag or milestone; StartTracing turns tracing on, records the window's start time and marks every running task; " +
 			"EndTask on an unknown task does nothing, on a known task removes the entry and — exactly when it is marked — writes one trace row carrying ID, parent, kind, what, location, start and the event's end time, then every milestone and every tag of the task; unmarked tasks write nothing; AddMilestone appends unless a milestone with the same time exists (and only then), creating a placeholder entry for an unknown task; AddTaskTag always appends; " +
-			"StopTracing writes one segment row (window start, current time) and turns tracing off; every handler holds the tracer's mutex for its whole body.",
+			"StopTracing writes one segment row (window start, current time) and turns tracing off; every handler holds the tracer's mutex for its whole body. StartTracing and StopTracing consult isTracing: a start inside an open window does not move the window's start, a stop without an open window records no segment.",
 		NotDecided:  "the backend's persistence (C34), termination ordering across goroutines, and histories' global exactly-once (follows from the per-event automaton given unique task IDs).",
 		Assumptions: []string{"task IDs are unique (C41)"},
 	}, runC36)
@@ -90,6 +90,19 @@ func runC36(c *Ctx) {
 		CheckTable(c, "start-tracing", "tracing.DBTracer.StartTracing", p.Decl(f).Pos(), t, []Role{ne}, nil, nil, func(v RoleVals, r *Row) (bool, string) {
 			if !lockHeld(r) {
 				return false, "must hold the mutex"
+			}
+			// a second StartTracing while a window is open must not move the window's
+			// start: the segment written at StopTracing would no longer cover the tasks
+			// recorded since the first start
+			already := r.Atom(func(a *Atom) bool { return a.IsBool && strings.HasSuffix(a.Key, ".isTracing") })
+			if already == nil {
+				return false, "must look at whether a tracing window is already open (a second start would overwrite the window's start time and truncate its segment)"
+			}
+			if already.B {
+				if len(r.Stores(func(e *Effect) bool { return strings.HasSuffix(e.RecvS, ".tracingStartTime") })) != 0 {
+					return false, "with a window already open the recorded start time must not change"
+				}
+				return true, ""
 			}
 			on := r.Stores(func(e *Effect) bool { return strings.HasSuffix(e.RecvS, ".isTracing") })
 			if len(on) != 1 || on[0].Args[0] != "true" {
@@ -236,6 +249,16 @@ func runC36(c *Ctx) {
 				return false, "must hold the mutex"
 			}
 			seg := inserts(r, "segmentTableName")
+			open := r.Atom(func(a *Atom) bool { return a.IsBool && strings.HasSuffix(a.Key, ".isTracing") })
+			if open == nil {
+				return false, "must look at whether a tracing window is open (a stop without one records a segment that was never captured)"
+			}
+			if !open.B {
+				if len(seg) != 0 {
+					return false, "without an open window no segment may be recorded"
+				}
+				return true, ""
+			}
 			if len(seg) != 1 {
 				return false, "each tracing window must be recorded as exactly one segment"
 			}
